@@ -182,7 +182,7 @@ SPEC = {
     "coq_targets": ["Props/C12.vo", "Extract/ExC12.vo"],
     "bin": "c12",
     # --n = number of mock clusters; quick: 100 requests per cluster (+ ~40 probe lines, ~4 refiller lines), thorough: 240
-    "sizes": {"quick": 300, "thorough": 3500},
+    "sizes": {"quick": 300, "thorough": 3000},
     "min_cases": {"quick": 30000, "thorough": 700000},
     "search_n": 600,
     "search_rounds": 1,
